@@ -80,7 +80,7 @@ class FullReport:
         self.path = path
         self.t = translator(lang)
         self.sheets = files.read_ods(path)
-        self.sheet_names = list(self.sheets)
+        self.sheet_names = list(getattr(self.sheets, "all_names", list(self.sheets)))
 
     # ---- sheet names
     def in_out_name(self, asset: str) -> str:
